@@ -419,6 +419,21 @@ func TestPipelines(t *testing.T) {
 		sinceIncr := false
 		for i := 0; i < n; i++ {
 			a := genAction(t)
+			if m := len(c.Actions); m > 0 && rapid.IntRange(0, 7).Draw(t, "again") == 0 {
+				// the value just written, written again: identical call, or through the other
+				// addressing form so that it lands on the register that already holds it
+				if p := c.Actions[m-1]; p.K == "csel" || p.K == "nsel" || p.K == "creg" || p.K == "nreg" || p.K == "lod" {
+					a = p
+					if (p.K == "creg" || p.K == "nreg") && rapid.Bool().Draw(t, "otherform") {
+						if !p.Incr && p.Adj == 0 {
+							a.Incr = true
+						} else if p.Incr {
+							a.Incr, a.Adj = false, 1
+						}
+					}
+					labels["same-value-written-again"] = true
+				}
+			}
 			c.Actions = append(c.Actions, a)
 			switch a.K {
 			case "csel", "nsel":
